@@ -36,7 +36,37 @@ pub fn quarantined(addr: usize) -> bool {
     }
     let n = NFREED.load(Ordering::Acquire).min(MAX_FREED);
     let f = unsafe { &*std::ptr::addr_of!(FREED) };
-    f[..n].iter().any(|(p, l)| addr >= *p && addr < *p + *l)
+    if f[..n].iter().any(|(p, l)| addr >= *p && addr < *p + *l) {
+        return true;
+    }
+    let n = NDEAD.load(Ordering::Acquire).min(MAX_DEAD);
+    let d = unsafe { &*std::ptr::addr_of!(DEAD) };
+    d[..n].iter().any(|(p, l)| *l != 0 && addr >= *p && addr < *p + *l)
+}
+
+/// objects that do not live on the heap (a stack frame that reported its own end through hook labels)
+const MAX_DEAD: usize = 64;
+static mut DEAD: [(usize, usize); MAX_DEAD] = [(0, 0); MAX_DEAD];
+static NDEAD: AtomicUsize = AtomicUsize::new(0);
+
+/// called by the engine under its lock
+pub fn mark_dead(addr: usize, len: usize) {
+    let n = NDEAD.load(Ordering::Acquire);
+    if n < MAX_DEAD {
+        unsafe { (*std::ptr::addr_of_mut!(DEAD))[n] = (addr, len.max(1)) };
+        NDEAD.store(n + 1, Ordering::Release);
+    }
+}
+
+/// the address is in use again
+pub fn unmark_dead(addr: usize) {
+    let n = NDEAD.load(Ordering::Acquire).min(MAX_DEAD);
+    let d = unsafe { &mut *std::ptr::addr_of_mut!(DEAD) };
+    for e in d[..n].iter_mut() {
+        if e.0 == addr {
+            *e = (0, 0);
+        }
+    }
 }
 
 pub struct DetAlloc;
